@@ -424,8 +424,13 @@ def c15_behaviour(rng, alg, fam, crossing, nctx=1):
             first = (1 << 29) - rng.choice([1, B, 3 * B + 5, 1000])
             segs = [first, (1 << 29) - first + res + rng.choice([0, B, 5 * B])]
         elif crossing == 32:
-            if rng.random() < 0.5:
+            r = rng.random()
+            if r < 0.3:
                 segs = [(1 << 32) - 1, 1 + res + rng.choice([0, B])]                 # one maximal submit
+            elif r < 0.6:
+                # a pending partial block followed by one of the largest legal segments: partial + len wraps 32 bits
+                p0 = rng.choice([1, 37, B - 1, B // 2])
+                segs = [p0, (1 << 32) - rng.choice([1, 1, p0, B])] + ([res] if res else [])
             else:
                 a = (1 << 31) + rng.randrange(0, 1 << 20)
                 segs = [a, (1 << 32) - a - rng.choice([1, 7, B]), rng.choice([1, 7, B]) + res]
